@@ -19,6 +19,11 @@ SPECIALS = [
     ('plainx', '[Expect(K), K]'),                 # instance reused through the memo
     ('plainx', '[Expect(P), P, Opt(K)]'),
     ('look', 'Expect(K) >> [K, K]'),
+    # instances parsed inside lookahead that STAY in the result and reach beyond where the parse stops
+    ('look', '[Expect([K, K]), K]'),
+    ('look', '[Expect(P), K]'),
+    ('look', '[Expect(Q), D]'),
+    ('look', 'class R { head: K; ahead: Opt(Expect([K, Opt(K)])) }\nstart_ = R' if False else '[K, Opt(Expect([K, Opt(K)]))]'),
     ('plain', 'Pair(K)'),
     ('plain', '[Pair(K), Pair(L)]'),
     ('plain', 'K between { left: "+", "-" ; prefix: "!" ; postfix: "?" }' if False else 'K'),
@@ -53,7 +58,7 @@ def jobs_for(tier, rnd):
         for ign in (False, True):
             d = 'start = ' + e + '\n' + PRELUDE + (IGN if ign else '')
             tx = (T1[:60] + T2 + T1[-9:]) if ign else T1
-            jobs.append((gid, d, tx, {'positions': [0, 1, 2], 'fulls': [True], 'kind': kind, 'module_level': True}))
+            jobs.append((gid, d, tx, {'positions': [0, 1, 2], 'fulls': [True, False] if kind == 'look' else [True], 'kind': kind, 'module_level': True}))
             gid += 1
     return jobs
 
